@@ -329,6 +329,7 @@ func (BSCScenario) Execute(p kernel.Plan, rec *kernel.Rec) {
 			break
 		}
 	}
+	replicaCheck(rec, w.host, p.Cfg, "bsc")
 	rec.AddSim(int64(w.now.Sub(start) / time.Second))
 }
 
